@@ -47,7 +47,7 @@ def hidden_channels(b):
         (ts['args'][1] in ('hidden', 'both') and any('own' in c['sa'] for c in prog['calls']))
     ck = any(c['sk'] in ('foreign', 'own+f') for c in prog['calls']) or \
         (ts['kwargs'][1] in ('hidden', 'both') and any('own' in c['sk'] for c in prog['calls'])) or \
-        any(c.get('inarg') == 'mutate' for c in prog['calls']) or any(c['ctx'] in ('comp_rebinds_kwargs', 'genexp_rebinds_kwargs', 'loop_rebinds_kwargs') for c in prog['calls'])
+        any(c.get('inarg') == 'mutate' for c in prog['calls']) or any(c['ctx'] in ('comp_rebinds_kwargs', 'genexp_rebinds_kwargs', 'loop_rebinds_kwargs', 'comploop_mutates_kwargs') for c in prog['calls'])
     ca = ca or any(c['ctx'] in ('comp_rebinds_args', 'genexp_rebinds_args', 'loop_rebinds_args') for c in prog['calls'])
     return ca, ck
 
@@ -63,7 +63,7 @@ def content_flows(b, calls=None):
         ts = progs.taint_state(prog, j)
         for key, mode in (('args', 'sa'), ('kwargs', 'sk')):
             tainted, flow = ts[key]
-            if c[mode] in ('own+f', 'own+own') or (c[mode] == 'own' and tainted and flow in ('same', 'both')):
+            if c[mode] in ('own+f', 'own+own', 'own+pos') or (c[mode] == 'own' and tainted and flow in ('same', 'both')):
                 out[key] = True
     return out
 
